@@ -27,7 +27,7 @@ RULE = (
     "api: groups of runs of one seeded pipeline (learner percolator/svc/linear; FASTA with decoys / target-only with "
     "planted anagram peptides / none) across PYTHONHASHSEED {0,1,2,random} x workers {1,3,8} (+ one in-process "
     "repeat); cli: python -m mokapot.mokapot --seed s --save_models, then --load_models in every permutation "
-    "(3 folds: 6, thorough 4 folds: 24), across hash seeds. No tolerance: digests must be equal. Non-trivial = "
+    "(3 folds: 6, thorough 4 folds: 24), with and without --ensemble, across hash seeds. No tolerance: digests must be equal. Non-trivial = "
     "a group with >= 2 distinct hash seeds or >= 2 worker counts whose runs all succeeded; distinct = group id."
 )
 ASSUMPTIONS = [
@@ -53,6 +53,10 @@ def plan(seed, tier):
         for hs in (["0", "random"] if tier == "quick" else ["0", "1", "random"]):
             cases.append({"class": "cli", "group": g, "hashseed": hs, "env": {"PYTHONHASHSEED": hs},
                           "folds": 3 if tier == "quick" or g else 4, "cost": 60})
+    # ensemble mode: every fold model scores every PSM and the scores are averaged
+    for hs in (["0"] if tier == "quick" else ["0", "random"]):
+        cases.append({"class": "cli", "group": 100, "hashseed": hs, "env": {"PYTHONHASHSEED": hs}, "folds": 3,
+                      "ensemble": True, "cost": 60})
     return cases
 
 
@@ -175,6 +179,8 @@ def run_cli(case):
         folds = case["folds"]
         common = [pin, "--seed", 11, "--folds", folds, "--max_iter", 2, "--train_fdr", 0.1, "--test_fdr", 0.1, "-v", 0,
                   "--keep_decoys", "--proteins", fa, "--missed_cleavages", 0, "--max_workers", [1, 2][case["group"] % 2]]
+        if case.get("ensemble"):
+            common.append("--ensemble")
         a = _cli(common + ["--dest_dir", d / "first", "--save_models"])
         res.count("cli_runs")
         if not a.ok:
